@@ -67,7 +67,7 @@ def check(ctx, lib, c):
             return [(i, v, bool(mask >> i & 1)) for i, v in entries]
         msg = c["msg"]
         pert = c["pert"]
-        lib.set_random(c["stream"], c["seed"])
+        s_drawn = W.sampled_exponent(c["stream"], c["seed"])
         pre = W.precompute(ex.params, Attrs(flagged(signed, fs)))
         if pert == "sign_pre":
             sig = W.sign(ex.params, k["h"], Attrs(flagged(signed, fs)), msg, pre=pre)
@@ -79,6 +79,11 @@ def check(ctx, lib, c):
         else:
             sig = W.sign(ex.params, k["h"], Attrs(flagged(signed, fs)), msg)
         vlist, vmsg = dict(signed), msg
+        # the signature is randomised by exactly the exponent drawn from the caller's random source: a1 = key.a1 * g^s
+        ka1 = W.sk_view(k["h"], max_slots=0)["a1"]
+        sa1 = W.blob_bytes(sig, 4)[W.g1sz:W.g1sz + W.g2sz]
+        expect(W.g2_eq(sa1, W.g2_add(ka1, W.g2_mul(W.params_view(ex.params)["g"], s_drawn))), "sign/randomiser",
+               lambda: "signature.a1 != key.a1 * g^s for the s drawn first from the random source (s=%x)" % s_drawn)
         slot = c["slot"] % l
         if pert == "msg+1":
             vmsg = (msg + 1) % (1 << 256)
